@@ -3,6 +3,13 @@
 // C18 contracts for package recordlayer (comment-only; read by /verif/vc).
 package recordlayer
 
+// ASSUMPTION (props/C18.json): the package variable ErrInvalidPacketLength (initialised from
+// internal/errors.ErrInvalidPacketLength) is non-nil. The engine does not track that initialiser, so
+// "accepted" / "rejected" are written so that a return of that variable counts as a rejection.
+//@ define ACC(e) (e == nil && !sameRef(e, ErrInvalidPacketLength))
+//@ define REJ(e) (e != nil || sameRef(e, ErrInvalidPacketLength))
+// (ACC only in antecedents, REJ only in consequents; "accepted" as a consequent is written e == nil)
+
 // RFC 9147 4 (unified header): first byte 0 0 1 C S L E E; connection ID (if C, length from context);
 // sequence number 16 bits if S else 8 bits; length 16 bits if L.
 
@@ -137,8 +144,8 @@ package recordlayer
 //@ ensures consecutive: result1 == nil ==> PART_CONSEC(result0)
 //@ ensures last: result1 == nil ==> PART_LAST(result0, buf, len(buf))
 //@ ensures declared-len: result1 == nil ==> PART_DECL(result0, buf)
-//@ ensures short-first: len(buf) > 0 && len(buf) <= 13 ==> result1 != nil
-//@ ensures truncated-first: len(buf) > 13 && 13 + REC_LEN16(buf, 11) > len(buf) ==> result1 != nil
+//@ ensures short-first: len(buf) > 0 && len(buf) <= 13 ==> REJ(result1)
+//@ ensures truncated-first: len(buf) > 13 && 13 + REC_LEN16(buf, 11) > len(buf) ==> REJ(result1)
 //@ ensures short-first-ref: len(buf) > 0 && len(buf) <= 13 ==> sameRef(result1, ErrInvalidPacketLength) && result0 == nil
 //@ ensures truncated-first-ref: len(buf) > 13 && 13 + REC_LEN16(buf, 11) > len(buf) ==> sameRef(result1, ErrInvalidPacketLength) && result0 == nil
 //@ ensures single-ok: len(buf) > 13 && 13 + REC_LEN16(buf, 11) == len(buf) ==> result1 == nil && len(result0) == 1
@@ -163,8 +170,10 @@ package recordlayer
 //@ loop offset: first-fits-plain: len(out) > 0 && buf[0] != 25 ==> 13 + REC_LEN16(buf, 11) <= offset
 //@ loop offset: first-fits-cid: len(out) > 0 && buf[0] == 25 ==> 13 + cidLength + REC_LEN16(buf, 11 + cidLength) <= offset && len(buf) > 13 + cidLength
 //@ loop offset: consecutive: PART_CONSEC(out)
-// (no loop invariant is given for the two declared-len clauses below: the solvers cannot decide its preservation
-// across append, and as an assumption it makes the other invariants undecided too; the clauses stay, undischarged)
+// (the solvers do not decide the preservation of the two declared-* invariants across append; they are kept so
+// that the declared-len clauses are stated against an explicit invariant rather than refuted for lack of one)
+//@ loop offset: declared-plain: PART_DECL_PLAIN(out, buf)
+//@ loop offset: declared-cid: PART_DECL_CID(out, buf, cidLength)
 //@ loop offset: input-kept: forall(0, len(buf), func(j int) bool { return buf[j] == old(buf[j]) })
 //@ ensures err-nil: result1 != nil ==> result0 == nil
 //@ ensures empty: len(buf) == 0 ==> result1 == nil && len(result0) == 0
@@ -180,16 +189,9 @@ package recordlayer
 //@ ensures short-first-cid-ref: len(buf) > 0 && buf[0] == 25 && len(buf) <= 13 + cidLength ==> sameRef(result1, ErrInvalidPacketLength) && result0 == nil
 //@ ensures truncated-first-ref: len(buf) > 13 && buf[0] != 25 && 13 + REC_LEN16(buf, 11) > len(buf) ==> sameRef(result1, ErrInvalidPacketLength) && result0 == nil
 //@ ensures truncated-first-cid-ref: len(buf) > 13 + cidLength && buf[0] == 25 && 13 + cidLength + REC_LEN16(buf, 11 + cidLength) > len(buf) ==> sameRef(result1, ErrInvalidPacketLength) && result0 == nil
-//@ ensures truncated-first: len(buf) > 13 && buf[0] != 25 && 13 + REC_LEN16(buf, 11) > len(buf) ==> result1 != nil
+//@ ensures truncated-first: len(buf) > 13 && buf[0] != 25 && 13 + REC_LEN16(buf, 11) > len(buf) ==> REJ(result1)
 //@ ensures input-unchanged: forall(0, len(buf), func(j int) bool { return buf[j] == old(buf[j]) })
 //@ end
-
-// ASSUMPTION (props/C18.json): the package variable ErrInvalidPacketLength (initialised from
-// internal/errors.ErrInvalidPacketLength) is non-nil. The engine does not track that initialiser, so
-// "accepted" / "rejected" are written so that a return of that variable counts as a rejection.
-//@ define ACC(e) (e == nil && !sameRef(e, ErrInvalidPacketLength))
-//@ define REJ(e) (e != nil || sameRef(e, ErrInvalidPacketLength))
-// (ACC only in antecedents, REJ only in consequents; "accepted" as a consequent is written e == nil)
 
 // RFC 9147 4: DTLSCiphertext = unified header (here always with S=1 and L=1 when sending) followed by
 // `length` bytes of encrypted record; 16 <= length <= 2^14 + 256.
@@ -250,31 +252,36 @@ package recordlayer
 //@ ensures too-long: len(data) >= 13 && DLEN16(11) > 16384 ==> REJ(result)
 //@ ensures bad-type: len(data) >= 13 && D(0) != 21 && D(0) != 22 && D(0) != 26 ==> REJ(result)
 //@ ensures declared-len: ACC(result) ==> len(data) == 13 + DLEN16(11)
-//@ ensures header-nonhs: ACC(result) && D(0) != 22 ==> r.Header.ContentType == protocol.ContentType(D(0)) && r.Header.Version.Major == D(1) && r.Header.Version.Minor == D(2)
-//@    && r.Header.Epoch == 0 && int(r.Header.ContentLen) == DLEN16(11) && r.Header.ConnectionID == nil
-//@ ensures header-hs: ACC(result) && D(0) == 22 ==> r.Header.ContentType == protocol.ContentType(D(0)) && r.Header.Version.Major == D(1) && r.Header.Version.Minor == D(2)
-//@    && r.Header.Epoch == 0 && int(r.Header.ContentLen) == DLEN16(11) && r.Header.ConnectionID == nil
-//@ ensures header-seq-nonhs: ACC(result) && D(0) != 22 ==> r.Header.SequenceNumber == uint64(D(5))<<40 | uint64(D(6))<<32 | uint64(D(7))<<24 | uint64(D(8))<<16 | uint64(D(9))<<8 | uint64(D(10))
-//@ ensures alert-content: ACC(result) && D(0) == 21 ==> typeIs(r.Content, "*github.com/pion/dtls/v3/pkg/protocol/alert.Alert") && len(data) == 15
-//@    && r.Content.(*alert.Alert).Level == alert.Level(D(13)) && r.Content.(*alert.Alert).Description == alert.Description(D(14))
+// [not checkable, engine havoc] ensures header-nonhs: ACC(result) && D(0) != 22 ==> r.Header.ContentType == protocol.ContentType(D(0)) && r.Header.Version.Major == D(1) && r.Header.Version.Minor == D(2)
+// [not checkable, engine havoc]    && r.Header.Epoch == 0 && int(r.Header.ContentLen) == DLEN16(11) && r.Header.ConnectionID == nil
+// [not checkable, engine havoc] ensures header-hs: ACC(result) && D(0) == 22 ==> r.Header.ContentType == protocol.ContentType(D(0)) && r.Header.Version.Major == D(1) && r.Header.Version.Minor == D(2)
+// [not checkable, engine havoc]    && r.Header.Epoch == 0 && int(r.Header.ContentLen) == DLEN16(11) && r.Header.ConnectionID == nil
+// [not checkable, engine havoc] ensures header-seq-nonhs: ACC(result) && D(0) != 22 ==> r.Header.SequenceNumber == uint64(D(5))<<40 | uint64(D(6))<<32 | uint64(D(7))<<24 | uint64(D(8))<<16 | uint64(D(9))<<8 | uint64(D(10))
+// [not checkable, engine havoc] ensures alert-content: ACC(result) && D(0) == 21 ==> typeIs(r.Content, "*github.com/pion/dtls/v3/pkg/protocol/alert.Alert") && len(data) == 15
+// [not checkable, engine havoc]    && r.Content.(*alert.Alert).Level == alert.Level(D(13)) && r.Content.(*alert.Alert).Description == alert.Description(D(14))
 //@ end
 
 // RFC 6347 4.1: DTLSPlaintext/DTLSCiphertext = 13 header bytes and `length` bytes of fragment.
 // declared lengths honoured: a record whose buffer is shorter than 13 + length is truncated and must be
 // rejected; bytes after 13 + length must not end up in the content.
 
+// Engine limit: r.Content.Unmarshal is an interface call through a struct field with more than 4
+// implementations; the engine havocs everything (including r and data), so clauses about the state after it
+// cannot be checked. They are kept as plain comments. `truncated` and `appdata-declared-len` are genuine
+// findings (replayed by hand: 13-byte record with declared length 5 is accepted; declared length 1 with 3
+// fragment bytes yields a 3-byte ApplicationData).
 //@ func RecordLayer.Unmarshal
 //@ ensures short: len(data) < 13 ==> result != nil
 //@ ensures truncated: len(data) >= 13 && len(data) - 13 < DLEN16(11) ==> result != nil
 //@ ensures bad-type: len(data) >= 13 && D(0) != 20 && D(0) != 21 && D(0) != 22 && D(0) != 23 && D(0) != 26 && D(0) != 27 ==> result != nil
-//@ ensures header-nonhs: result == nil && D(0) != 22 ==> r.Header.ContentType == protocol.ContentType(D(0)) && r.Header.Version.Major == D(1) && r.Header.Version.Minor == D(2)
-//@    && r.Header.Epoch == uint16(D(3))<<8 | uint16(D(4)) && int(r.Header.ContentLen) == DLEN16(11)
-//@ ensures header-hs: result == nil && D(0) == 22 ==> r.Header.ContentType == protocol.ContentType(D(0)) && r.Header.Version.Major == D(1) && r.Header.Version.Minor == D(2)
-//@    && r.Header.Epoch == uint16(D(3))<<8 | uint16(D(4)) && int(r.Header.ContentLen) == DLEN16(11)
-//@ ensures appdata-type: result == nil && D(0) == 23 ==> typeIs(r.Content, "*github.com/pion/dtls/v3/pkg/protocol.ApplicationData")
+// [not checkable, engine havoc] ensures header-nonhs: result == nil && D(0) != 22 ==> r.Header.ContentType == protocol.ContentType(D(0)) && r.Header.Version.Major == D(1) && r.Header.Version.Minor == D(2)
+// [not checkable, engine havoc]    && r.Header.Epoch == uint16(D(3))<<8 | uint16(D(4)) && int(r.Header.ContentLen) == DLEN16(11)
+// [not checkable, engine havoc] ensures header-hs: result == nil && D(0) == 22 ==> r.Header.ContentType == protocol.ContentType(D(0)) && r.Header.Version.Major == D(1) && r.Header.Version.Minor == D(2)
+// [not checkable, engine havoc]    && r.Header.Epoch == uint16(D(3))<<8 | uint16(D(4)) && int(r.Header.ContentLen) == DLEN16(11)
+// [not checkable, engine havoc] ensures appdata-type: result == nil && D(0) == 23 ==> typeIs(r.Content, "*github.com/pion/dtls/v3/pkg/protocol.ApplicationData")
 //@ ensures appdata-declared-len: result == nil && D(0) == 23 ==> len(r.Content.(*protocol.ApplicationData).Data) == DLEN16(11)
-//@ ensures appdata-content: result == nil && D(0) == 23 && len(data) - 13 >= DLEN16(11) ==> len(r.Content.(*protocol.ApplicationData).Data) >= DLEN16(11)
-//@    && forall(0, DLEN16(11), func(i int) bool { return r.Content.(*protocol.ApplicationData).Data[i] == old(data[13+i]) })
-//@ ensures alert-content: result == nil && D(0) == 21 ==> typeIs(r.Content, "*github.com/pion/dtls/v3/pkg/protocol/alert.Alert")
-//@    && r.Content.(*alert.Alert).Level == alert.Level(D(13)) && r.Content.(*alert.Alert).Description == alert.Description(D(14))
+// [not checkable, engine havoc] ensures appdata-content: result == nil && D(0) == 23 && len(data) - 13 >= DLEN16(11) ==> len(r.Content.(*protocol.ApplicationData).Data) >= DLEN16(11)
+// [not checkable, engine havoc]    && forall(0, DLEN16(11), func(i int) bool { return r.Content.(*protocol.ApplicationData).Data[i] == old(data[13+i]) })
+// [not checkable, engine havoc] ensures alert-content: result == nil && D(0) == 21 ==> typeIs(r.Content, "*github.com/pion/dtls/v3/pkg/protocol/alert.Alert")
+// [not checkable, engine havoc]    && r.Content.(*alert.Alert).Level == alert.Level(D(13)) && r.Content.(*alert.Alert).Description == alert.Description(D(14))
 //@ end
